@@ -312,7 +312,7 @@ KERNEL_FAMILY = [('add', 'arith'), ('sub', 'arith'), ('mul', 'arith'), ('div', '
                  ('to_scalars', 'scalars'), ('matrix_from_scalars', 'scalars'), ('comp', 'arith')]
 
 
-def gen_leaf(rng, ty, leaves, shapes, keysets, denoms, share=0.0):
+def gen_leaf(rng, ty, leaves, shapes, keysets, denoms, share=0.0, force_axis=False):
     # the same operand object may be used several times in one expression (seeded change C06-A: a cached
     # derivative-free twin going stale shows only when an operand is reused)
     same = [i for i, l in enumerate(leaves) if l['ty'] == ty]
@@ -326,19 +326,32 @@ def gen_leaf(rng, ty, leaves, shapes, keysets, denoms, share=0.0):
         arr = np.array(vals).reshape(shape + item) * 0.3 + 1.5 * np.eye(3)
         vals = arr.ravel().tolist()
     mask = False
-    if shape and rng.random() < 0.35:
+    if shape and rng.random() < 0.35 and not force_axis:
         mask = [rng.random() < 0.3 for _ in range(int(np.prod(shape)))]
     derivs = {}
     for key in KEYS:
         if rng.random() < keysets[key]:
             den = denoms[key]
             derivs[key] = [rng.choice(VALS) for _ in range(n * int(np.prod(den)))]
+    if ty in ('V', 'P') and (force_axis or rng.random() < 0.12):
+        # vectors of length exactly one (axis vectors) whose derivatives have a component along them
+        # (seeded change C06-I: unit() returned such an operand unchanged, derivative included)
+        isz = int(np.prod(item))
+        arr = np.zeros((n // isz if isz else 0, isz))
+        for r_ in range(arr.shape[0]):
+            arr[r_, rng.randrange(isz)] = rng.choice([1.0, -1.0])
+        vals = arr.ravel().tolist()
     leaf = {'ty': ty, 'shape': list(shape), 'vals': vals, 'mask': mask, 'derivs': derivs}
     if not derivs and ty in ('V', 'P', 'S') and rng.random() < 0.4:
         # an integer-valued constant of the generic class (Vector rather than Vector3): the other operand's
         # derivatives must come through unharmed (seeded change C06-F: they were cast to the integer dtype)
         leaf['vals'] = [float(rng.choice([-2, -1, 1, 2, 3])) for _ in range(n)]
         leaf['intconst'] = True
+    elif ty == 'V' and rng.random() < 0.35:
+        # the object and its derivatives are of sibling classes (Vector3 with Vector derivatives, as x_rotation and
+        # to_matrix3 produce for matrices; a plain Vector; a Vector with Vector3 derivatives): a conversion between
+        # the two classes must carry the derivatives along (seeded change C06-J)
+        leaf['clsmix'] = rng.choice(['v3_vec', 'vec_vec', 'vec_v3'])
     leaves.append(leaf)
     return {'leaf': len(leaves) - 1, 'ty': ty, 'rc': 'B'}
 
@@ -447,6 +460,16 @@ def gen_cases(rng, tier, focus=()):
                              'twovec': {'c': [0, 1]}, 'with_norm': {'c': 2.5}}.get(nm, {}))
                 cases.append({'tree': node, 'leaves': leaves, 'denoms': {'t': list(den), 'u': []}, 'root': None,
                               'depth': 1, 'core': True})
+                if any(t in 'VP' for t in argt) and nm not in ('sep', 'twovec', 'cross', 'ucross', 'perp', 'proj', 'pcross'):
+                    # the same with vectors of length exactly one, none masked, derivatives in any direction
+                    leaves2, args2 = [], []
+                    for i, (t, need) in enumerate(zip(argt, needs)):
+                        sub = gen_leaf(rng, t, leaves2, [(), (2,)], {'t': 1.0 if subset >> i & 1 else 0.0, 'u': 0.3},
+                                       {'t': den, 'u': ()}, force_axis=t in 'VP')
+                        args2.append(sub if (t in 'VP' and need in ('', 'nzv')) else safen(sub, t, need))
+                    node2 = dict(node, args=args2)
+                    cases.append({'tree': node2, 'leaves': leaves2, 'denoms': {'t': list(den), 'u': []}, 'root': None,
+                                  'depth': 1, 'core': True, 'axis_vectors': True})
     # reuse core: one Scalar operand used twice, u1(x) (*|+) u2(x), u2 an operation with a plain number, both orders
     consts = {'radd': {'c': 2.5}, 'rsub': {'c': 2.5}, 'rmul': {'c': 2.5}, 'rdiv': {'c': 2.5}, 'mod': {'c': 1.25},
               'powr': {'c': 1.5}}
@@ -485,12 +508,16 @@ def build_leaf(Pm, leaf, denoms, with_derivs=True, displace=None):
     if leaf.get('intconst'):
         gen = {'S': Pm.Scalar, 'V': Pm.Vector, 'P': Pm.Pair}[ty]
         return gen(vals.astype(np.int64), mask)
-    obj = cls_of(Pm, ty)(vals, mask)
+    pcls = dcls = cls_of(Pm, ty)
+    if leaf.get('clsmix'):
+        pcls, dcls = {'v3_vec': (Pm.Vector3, Pm.Vector), 'vec_vec': (Pm.Vector, Pm.Vector),
+                      'vec_v3': (Pm.Vector, Pm.Vector3)}[leaf['clsmix']]
+    obj = pcls(vals, mask)
     if with_derivs:
         for key, dv in leaf['derivs'].items():
             den = tuple(denoms[key])
             d = np.array(dv, dtype=float).reshape(shape + item + den)
-            obj.insert_deriv(key, cls_of(Pm, ty)(d, mask, drank=len(den)))
+            obj.insert_deriv(key, dcls(d, mask, drank=len(den)))
     return obj
 
 
